@@ -40,6 +40,11 @@ METAS = [
     ('numbers', {'big': 12345678901234567890123, 'neg': -7, 'fl': 2.5}),
     ('empties', {'l': [], 'd': {'e': {}}, 's': ''}),
     ('emoji', {'😀': '😀'}),
+    # unsorted insertion order at every nesting level, incl. dicts inside
+    # lists inside dicts (canonical form must sort them all)
+    ('deep-unsorted', {'z': [{'source': 's', 'dest': 'd', 'bytes': 3},
+                             [{'b': 1, 'a': 2}]],
+                       'a': {'y': {'q': 1, 'p': [{'n': 1, 'm': 2}]}}}),
 ]
 META_BY_NAME = dict(METAS)
 
